@@ -66,7 +66,8 @@ def gen_case(ctx, stream, idx):
     params = ir["params"]
     if mode == "declared":
         k = r.choice(names)
-        params[k]["doc"] = "[PK] " + params[k]["doc"]
+        # (a primary key may come without any description: the marker alone)
+        params[k]["doc"] = "[PK]" if r.random() < 0.25 else "[PK] " + params[k]["doc"]
         params[k].pop("default", None)
         if params[k]["typ"].startswith("Optional["):
             params[k]["typ"] = "int"
